@@ -38,7 +38,9 @@ PROPS = {
         unreached=["write_all_vectored's retry loop (see C16)", "json_string.rs (serde_json)", "MetricsForDimensionSet::new / EmfBuilder::build (prefix texts)", "the grammar of the whole record (only framing and composition of the verified fragments)"],
     ),
     "C08": dict(
-        verus=[("emf_cfg", {"profile_debug": True}), ("emf_cfg", {"profile_debug": False}), ("emf_validate", {}), ("emf_metric", {}), ("emf_finish", {})],
+        # emf_fresh: the per-name / per-record automata of the validation functions start from the empty maps that
+        # format_with_multiplicity hands them (their precondition) - a leak of one entry's state into the next is a C08 failure too
+        verus=[("emf_cfg", {"profile_debug": True}), ("emf_cfg", {"profile_debug": False}), ("emf_validate", {}), ("emf_metric", {}), ("emf_finish", {}), ("emf_fresh", {})],
         technique="Verus function contracts on the extracted real Emf::builder / all_validations / no_validations / skip_all_validations (once per build profile) and on validate_name / timestamp / validate_string / string over a trusted ghost-map model of hashbrown's entry API",
         level_text="Deductive proof (Verus/z3) that every documented way of enabling validations really enables all three validation switches in BOTH build profiles "
                    "(cfg(debug_assertions) resolved mechanically per profile), that no_validations disables all, and that skip_all_validations is monotone and touches nothing else; "
